@@ -8,7 +8,8 @@ drv_C55: TAB separated fields; texts are comma separated decimal code points (`-
   (`wq`: `print_op_addendum` as written with quoted = true, `wqfix`: repaired, `w`: quoted = false,
   `rd`: `readAtom` of `wqfix`, `self`: `readAtom` of the raw text);
 * `lex <id> <uc> <text>` → the tokens of the text, or `error`;
-* `seq <id> <uc> <text>;<text>;…` → the texts joined with `appendTok`, then ` ## ` and its tokens.
+* `seq <id> <uc> <item>;<item>;…` → the items printed with `emitItem`/`pushChar` (quoted = true), then
+  ` ## ` and the tokens of that text; item = `<text>` | `<text>@<ambiguity text>` | `c<code>`.
 
 `<uc>`: `cp:bits,…` for the non-ASCII characters (bit 0 alphabetic, 1 numeric, 2 uppercase,
 3 whitespace, 4 control), `-` for none.
@@ -64,8 +65,12 @@ def handle : List String → String
   | ["lex", _, uc, text] => showToks (tokens (parseUC uc) (parseText text))
   | ["seq", _, uc, texts] =>
     let u := parseUC uc
-    let ts := (texts.splitOn ";").map parseText
-    let out := ts.foldl (appendTok u) []
+    let items := (texts.splitOn ";").map fun t =>
+      if t.startsWith "c" then Item.ch (Char.ofNat ((t.drop 1).toNat?.getD 32))
+      else match t.splitOn "@" with
+        | [x, a] => Item.tok (parseText a) (parseText x)
+        | _ => Item.tok (parseText t) (parseText t)
+    let out := (render u true items).text
     s!"{showText out} ## {showToks (tokens u out)}"
   | _ => "bad-op"
 
